@@ -359,7 +359,13 @@ class SchemaValidator:
                 )
             )
 
-        for param in remaining[3:]:
+        # The first 3 positional parameters receive the root value, the context
+        # and the resolution info, anything else which is required (including
+        # keyword only parameters) can never be provided.
+        expected = remaining_positional[:3]
+        for param in remaining:
+            if any(param is p for p in expected):
+                continue
             if param.default is Parameter.empty:
                 self.add_error(
                     'Required resolver parameter "%s" on "%s" does not match '
